@@ -78,7 +78,39 @@ def _probes(ctx):
                         {'probe': 'raw_string2'})
 
 
+def _txn_strings_grid(ctx):
+    """payee / narration: every sequence of at most two value assignments from {None, '', 'x'} on the three header forms; after
+    every accepted step the printed header re-reads as the (payee, narration) the model reports."""
+    import itertools
+    p = edits.P()
+    forms = ['2000-01-01 *', '2000-01-01 * "n"', '2000-01-01 * "p" "n"', '2000-01-01 * "" "n"']
+    steps = [(a, v) for a in ('payee', 'narration') for v in (None, '', 'x')]
+    for form in forms:
+        for seq in itertools.chain(((s1,) for s1 in steps), itertools.product(steps, steps)):
+            t = p.parse(form + '\n  Assets:A  1 USD', models.Transaction)
+            ok = True
+            for a, v in seq:
+                try:
+                    setattr(t, a, v)
+                except Exception:
+                    ok = False       # a refused combination: C09 / C19 matter
+                    break
+            if not ok:
+                continue
+            ctx.case(('txn-strings', form, seq))
+            text = intro.pr(t)
+            try:
+                again = p.parse(text, models.Transaction)
+                got = (again.payee, again.narration)
+            except Exception as e:
+                got = f'does not parse: {type(e).__name__}'
+            if got != (t.payee, t.narration):
+                ctx.oracle_fail(f'C06:transaction-strings:{seq[-1][0]}={seq[-1][1]!r}', f'{form!r} after {list(seq)}: the model says payee={t.payee!r} narration={t.narration!r}, '
+                                f'the printed text {text.splitlines()[0]!r} re-reads as {got}', {'probe': 'txn-strings', 'form': form, 'seq': [list(x) for x in seq]})
+
+
 def run(ctx):
+    _txn_strings_grid(ctx)
     session.run_sessions(ctx, ctx.scale(220, 5000), ctx.scale(12, 30), ['reparse', 'fresh'], syntax_preserving=True, auto_claim_only=True)
     slicegrid.run(ctx, ['reparse'], syntax_preserving=True)
     import slotgrid
@@ -94,6 +126,11 @@ def search(ctx, hints):
 
 def replay(ctx, data):
     rep = data.get('replay') or data
+    if rep.get('probe') == 'txn-strings':
+        import check
+        c = check.Ctx('C06', 'quick', ctx.seed)
+        _txn_strings_grid(c)
+        return not c.oracle_fails
     if rep.get('probe'):
         c = type('C', (), {'oracle_fails': [], 'case': lambda *a, **k: None, 'oracle_fail': lambda self, *a: self.oracle_fails.append(a)})()
         return False
